@@ -184,18 +184,53 @@ fn start_ws_target(k: u64, tx: Sender<(u64, TcpStream, Vec<u8>)>) -> Listener {
     Listener { port, stop, handle: Some(handle) }
 }
 
-/// is there a listening IPv4 socket on 127.0.0.1:port?  (/proc/net/tcp; no connection is made, so the server's
-/// log has no line about the harness's own probing)
-fn listening(port: u16) -> bool {
+/// does process `pid` own a listening IPv4 socket on 127.0.0.1:port?  (/proc/net/tcp + /proc/<pid>/fd; no connection
+/// is made, so the server's log has no line about the harness's own probing, and a listener of somebody else on
+/// that port is not mistaken for the server)
+fn listening(pid: u32, port: u16) -> bool {
     let want = format!("0100007F:{:04X}", port);
-    fs::read_to_string("/proc/net/tcp")
+    let inodes: Vec<String> = fs::read_to_string("/proc/net/tcp")
         .map(|t| {
-            t.lines().skip(1).any(|l| {
-                let f: Vec<&str> = l.split_whitespace().collect();
-                f.len() > 3 && f[1] == want && f[3] == "0A"
-            })
+            t.lines()
+                .skip(1)
+                .filter_map(|l| {
+                    let f: Vec<&str> = l.split_whitespace().collect();
+                    if f.len() > 9 && f[1] == want && f[3] == "0A" {
+                        Some(format!("socket:[{}]", f[9]))
+                    } else {
+                        None
+                    }
+                })
+                .collect()
         })
-        .unwrap_or(false)
+        .unwrap_or_default();
+    if inodes.is_empty() {
+        return false;
+    }
+    match fs::read_dir(format!("/proc/{}/fd", pid)) {
+        Ok(d) => d.flatten().any(|e| fs::read_link(e.path()).map(|t| inodes.iter().any(|i| t.to_string_lossy() == *i)).unwrap_or(false)),
+        Err(_) => false,
+    }
+}
+
+/// every thread of the process sleeps (state S in /proc/<pid>/task/<tid>/stat)
+fn threads_idle(pid: u32) -> bool {
+    let dir = match fs::read_dir(format!("/proc/{}/task", pid)) {
+        Ok(d) => d,
+        Err(_) => return true,
+    };
+    for e in dir.flatten() {
+        if let Ok(stat) = fs::read_to_string(e.path().join("stat")) {
+            // "tid (comm) S ..." - comm may contain spaces, the state follows the last ')'
+            if let Some(p) = stat.rfind(')') {
+                let state = stat[p + 1..].trim_start().chars().next().unwrap_or('S');
+                if state != 'S' {
+                    return false;
+                }
+            }
+        }
+    }
+    true
 }
 
 fn free_port() -> u16 {
@@ -206,7 +241,40 @@ fn free_port() -> u16 {
 // a running server with its fixture
 // ------------------------------------------------------------------------------------------------
 
+/// A port that refuses connections for as long as this value lives: a socket bound to it but never listening (nobody
+/// else can bind the port meanwhile - with servers running in parallel a merely "free" port is soon somebody's listener).
+struct DeadPort {
+    fd: libc::c_int,
+    port: u16,
+}
+
+impl DeadPort {
+    fn new() -> DeadPort {
+        unsafe {
+            let fd = libc::socket(libc::AF_INET, libc::SOCK_STREAM | libc::SOCK_CLOEXEC, 0);
+            assert!(fd >= 0, "socket");
+            let mut sa: libc::sockaddr_in = std::mem::zeroed();
+            sa.sin_family = libc::AF_INET as libc::sa_family_t;
+            sa.sin_addr.s_addr = u32::from_ne_bytes([127, 0, 0, 1]);
+            let rc = libc::bind(fd, &sa as *const _ as *const libc::sockaddr, std::mem::size_of::<libc::sockaddr_in>() as u32);
+            assert!(rc == 0, "bind");
+            let mut len = std::mem::size_of::<libc::sockaddr_in>() as libc::socklen_t;
+            libc::getsockname(fd, &mut sa as *mut _ as *mut libc::sockaddr, &mut len);
+            DeadPort { fd, port: u16::from_be(sa.sin_port) }
+        }
+    }
+}
+
+impl Drop for DeadPort {
+    fn drop(&mut self) {
+        unsafe {
+            libc::close(self.fd);
+        }
+    }
+}
+
 struct Server {
+    _dead: DeadPort,
     child: Option<Child>,
     addr: SocketAddr,
     dir: PathBuf,
@@ -290,9 +358,10 @@ impl Server {
         let tgts = vec![start_ws_target(1, tx.clone()), start_ws_target(2, tx.clone())];
         let up_ports = [ups[0].port, ups[1].port];
         let mut last_err = String::new();
+        let mut dead_holder = Some(DeadPort::new());
+        let dead = dead_holder.as_ref().unwrap().port;
         for _attempt in 0..6 {
             let port = free_port();
-            let dead = free_port();
             let ws_ports = [tgts[0].port, tgts[1].port, dead];
             let mut conf = String::from("server {\n");
             conf.push_str(&format!("  address \"127.0.0.1\"\n  port {}\n  threads {}\n", port, cfg.threads));
@@ -351,18 +420,18 @@ impl Server {
                     exited = true;
                     break;
                 }
-                if listening(port) {
+                if listening(child.id(), port) {
                     up = true;
                     break;
                 }
                 std::thread::sleep(Duration::from_millis(5));
             }
             if up {
-                std::thread::sleep(Duration::from_millis(15));
+                std::thread::sleep(Duration::from_millis(30));
                 if let Ok(Some(_)) = child.try_wait() {
                     continue; // somebody else answered on that port; our process is gone
                 }
-                return Ok(Server { child: Some(child), addr, dir, _upstreams: ups, _targets: tgts, accepted: rx, conf_text: conf });
+                return Ok(Server { _dead: dead_holder.take().unwrap(), child: Some(child), addr, dir, _upstreams: ups, _targets: tgts, accepted: rx, conf_text: conf });
             }
             if exited {
                 let stderr = fs::read_to_string(dir.join("stderr.txt")).unwrap_or_default();
@@ -372,7 +441,7 @@ impl Server {
                     continue; // the port was taken between the probe and the server's bind
                 }
                 if stderr.contains("panicked") {
-                    return Ok(Server { child: None, addr, dir, _upstreams: ups, _targets: tgts, accepted: rx, conf_text: conf });
+                    return Ok(Server { _dead: dead_holder.take().unwrap(), child: None, addr, dir, _upstreams: ups, _targets: tgts, accepted: rx, conf_text: conf });
                 }
                 return Err(last_err);
             }
@@ -986,13 +1055,17 @@ fn run_record(bin: &str, base: &Path, name: &str, rec: &Value, rng: &mut Rng, st
     let fpath = srv.dir.join("server.log");
     let cpath = srv.dir.join("console.txt");
     let read = |p: &Path| fs::read_to_string(p).unwrap_or_default();
+    // done when, three times in a row, no thread of the server is runnable (a thread with work to do that merely has not
+    // been scheduled yet is in state R, not S) and neither sink has grown
+    let pid = srv.child.as_ref().map(|c| c.id()).unwrap_or(0);
     let mut prev = (read(&fpath).len(), read(&cpath).len());
     let mut quiet = 0;
     let t0 = Instant::now();
-    while quiet < 3 && t0.elapsed() < Duration::from_secs(3) {
-        std::thread::sleep(Duration::from_millis(40));
+    while quiet < 3 && t0.elapsed() < Duration::from_secs(8) {
+        std::thread::sleep(Duration::from_millis(30));
+        let idle = threads_idle(pid);
         let cur = (read(&fpath).len(), read(&cpath).len());
-        if cur == prev {
+        if cur == prev && idle {
             quiet += 1;
         } else {
             quiet = 0;
